@@ -108,6 +108,48 @@ pub fn run(tier: &str, shard: (u32, u32), seed: u64) -> Report {
         clause(&mut rep, "bump", 1);
     }
 
+    // 1b. "sub-tokens ... belong to that source": the crate's own same-source relation holds between
+    // any two keys of one (slot, generation) whatever their sub-ids and whichever is the receiver,
+    // and between no two keys that differ in slot or generation (boundary values, all pairs)
+    if sh == 0 {
+        let b16 = [0u16, 1, 2, 0x7fff, 0x8000, 0xfffe, 0xffff];
+        let b32 = [0u32, 1, 0xffff, 0x1_0000, 0x7fff_ffff, 0x8000_0000, u32::MAX - 1];
+        let mut bad = 0;
+        for &id in &b32 {
+            for &v in &b16 {
+                for &s1 in &b16 {
+                    for &s2 in &b16 {
+                        let (a, b) = (cv::fields_to_key(id, v, s1), cv::fields_to_key(id, v, s2));
+                        evals += 1;
+                        nontrivial += (s1 != s2) as u64;
+                        if !cv::same_source(a, b) {
+                            bad += 1;
+                            if bad <= 3 {
+                                rep.violations.push(viol("belongs", format!("keys ({id},{v},{s1}) and ({id},{v},{s2}) are sub-tokens of one source but same_source says no (receiver first)"), &[("expected", "true".into())]));
+                            }
+                        }
+                        for &id2 in &b32 {
+                            for &v2 in &b16 {
+                                if (id2, v2) == (id, v) {
+                                    continue;
+                                }
+                                let c = cv::fields_to_key(id2, v2, s2);
+                                evals += 1;
+                                if cv::same_source(a, c) {
+                                    bad += 1;
+                                    if bad <= 3 {
+                                        rep.violations.push(viol("belongs", format!("keys ({id},{v},{s1}) and ({id2},{v2},{s2}) belong to different sources but same_source says yes"), &[("expected", "false".into())]));
+                                    }
+                                }
+                            }
+                        }
+                    }
+                }
+            }
+        }
+        clause(&mut rep, "belongs", 1);
+    }
+
     // 2. dense id sweep with boundary (generation, sub-id) pairs
     let n_ids: u64 = if thorough { 1 << 22 } else { 1 << 18 };
     let stride = (1u64 << 32) / n_ids;
